@@ -15,6 +15,7 @@ from .asttypes import (
     AST,
     ExceptHandler,
     Match,
+    Module,
     Pass,
     Slice,
     Try,
@@ -41,6 +42,12 @@ _PATH_BODY2ORELSE   = [astfield('body', 0), astfield('body', 0), astfield('orels
 _PATH_BODYHANDLERS  = [astfield('body', 0), astfield('handlers', 0)]
 _PATH_BODY2HANDLERS = [astfield('body', 0), astfield('body', 0), astfield('handlers', 0)]
 _PATH_BODYCASES     = [astfield('body', 0), astfield('cases', 0)]
+
+
+class _ReparseAll(Exception):
+    """Raised from statement-level reparse BEFORE anything is modified to indicate that the source changed in a way that
+    can not be handled at statement level (it no longer gives exactly the one statementlike it replaces), reparse all
+    source instead."""
 
 
 def _reparse_raw_base(
@@ -87,7 +94,24 @@ def _reparse_raw_base(
         copy = copy_root.child_from_path(path)
 
         if not copy:
-            raise RuntimeError('could not find node after reparse')  # pragma: no cover
+            raise _ReparseAll
+
+        if set_ast:
+            if copy.col != self.col:  # statement moved to a different column, alone that is fine but not among its siblings
+                raise _ReparseAll
+
+        elif copy.a.__class__ is not self.a.__class__:  # only block header reparsed and the old body will be reused, must still be same kind of block
+            raise _ReparseAll
+
+        if not isinstance(path, str):  # the reparsed source must give exactly one node at each level of the path, otherwise the statement was split or something following it was pulled in or pushed out
+            a = copy_root.a
+
+            for name, idx in path:
+                if isinstance(a := getattr(a, name), list):
+                    if len(a) != 1:
+                        raise _ReparseAll
+
+                    a = a[idx]
 
         root._put_src(new_lines, ln, col, end_ln, end_col, True, True, self if set_ast else None)  # we do this again in our own tree to offset our nodes which aren't being moved over from the modified copy, can exclude self if setting ast because it overrides self locations
 
@@ -137,6 +161,11 @@ def _reparse_raw_stmtlike(self: fst.FST, new_lines: list[str], ln: int, col: int
     elif stmtlike is root:  # reparse may include trailing comments which would not otherwise be included
         pend_ln = len(lines) - 1
         pend_col = len(lines[-1])
+
+    shares_line = bool(
+        lines[pln][:pcol].strip()
+        or (not in_blkhead and (l := lines[pend_ln][pend_col:].lstrip()) and not l.startswith('#'))
+    )  # shares line with other statements or a block header (semicolons, `if a: stmt`), what is valid for this statement alone may not be valid or may mean something else there
 
     stmtlike_cls = stmtlikea.__class__
 
@@ -228,6 +257,9 @@ def _reparse_raw_stmtlike(self: fst.FST, new_lines: list[str], ln: int, col: int
             else:
                 path = _PATH_BODY2
 
+    if shares_line:
+        raise _ReparseAll
+
     if not in_blkhead:  # non-block statement or modifications not limited to block header part
         copy_lines[pend_ln] = bistr(copy_lines[pend_ln][:pend_col])
 
@@ -287,10 +319,27 @@ def _reparse_raw(self: fst.FST, code: Code | None, ln: int, col: int, end_ln: in
 
     new_lines = _code_as_lines(code)
 
-    if not _reparse_raw_stmtlike(self, new_lines, ln, col, end_ln, end_col):  # attempt to reparse only statement (or even only block header), if fails then no statement found above
+    try:
+        done = _reparse_raw_stmtlike(self, new_lines, ln, col, end_ln, end_col)  # attempt to reparse only statement (or even only block header), if fails then no statement found above
+
+    except (_ReparseAll, SyntaxError, NodeError):  # nothing was modified yet, the change may still be valid in the context of the whole source (or not valid where it looked so at statement level)
+        done = True
         root = self.root
 
-        if ((mode := root.a.__class__) is not Slice
+        if (mode := root.a.__class__) is Module:
+            mode = None  # just 'exec', if that fails then the change is invalid
+        elif mode is not Slice and (base := mode.__bases__[0]) not in (AST, mod, ExceptHandler, _slice):
+            mode = base
+
+        _reparse_raw_base(root, new_lines, ln, col, end_ln, end_col, root._lines[:], None, True, mode)
+
+    if not done:
+        root = self.root
+
+        if (mode := root.a.__class__) is Module and self is root:
+            mode = None  # just 'exec', if that fails then the change is invalid, a Module does not turn into something else
+
+        elif (mode is not Slice
             and (base := mode.__bases__[0]) not in (AST, mod, ExceptHandler, _slice)
         ):  # first generalize a bit
             mode = base
